@@ -25,8 +25,8 @@ import (
 	"github.com/ethereum/go-ethereum/ethdb"
 	"github.com/ethereum/go-ethereum/ethdb/memorydb"
 	"github.com/ethereum/go-ethereum/trie"
-	tk "verif/harness/triekit"
 	tl "verif/harness/tracelib"
+	tk "verif/harness/triekit"
 )
 
 type rcase struct {
